@@ -226,7 +226,12 @@ def check(ctx, run):
                 if others and res in ('None',):
                     extra.append((res, [show(c[0])[:50] for c in others]))
         loc = f'{b.file}:{b.line}'
-        if want_none:
+        # was the header kind read in the form this rule reads (mask & switch on the header word) at all?
+        recognised = any(k in table for k in ('A', 'S', 'O'))
+        if not recognised:
+            run.undecided('R19.3' if want_none else 'R19.2', fn, 'object-only' if want_none else 'header-kinds',
+                          'the header kind is not dispatched in this function in the form this rule reads (read through a helper or a struct?): not decided', loc)
+        elif want_none:
             ok = table.get('A') == {'None'} and table.get('S') == {'None'} and 'None' not in table.get('O', set()) and table.get('otherwise') == {'Err'} and not extra
             (run.proved if ok else run.violation)('R19.3', fn, 'object-only', 'None exactly for array and scalar headers, Err for invalid headers' if ok else
                                                    f'the object-only converter returns {dict((k, sorted(v)) for k, v in table.items())} with extra conditions {extra}: it must return None exactly when the header '
